@@ -149,7 +149,7 @@ def run(ck, facts):
         f = tool.fn(path)
         calls = {x.get("m") for x in C.calls_in(C.fn_body(f)) if x.get("k") == "mcall"}
         ck.expect(set(fmts) <= calls and "add_file" in calls, "R3", path.split("::")[-2] + "::run/file-names", str(fmts), "generated file names are no longer produced by %s (includes could name files that are not generated)" % (fmts,), C.loc(f))
-    pd = tool.fn("cpp::header::path_diff")
+    pd = tool.fn("path_diff")
     body = C.fn_body(pd)
     comp_eq = False
     for n in C.walk(body):
